@@ -264,3 +264,47 @@ Section Safe.
     cbn [sc_asserts]. rewrite Hp. reflexivity.
   Qed.
 End Safe.
+
+(* ------------------------------------------------------------------ per-row (C11): what a row's NAME announces is what
+   the row computes.  For every export row with an integer element type on a modelled register, called as documented
+   (dims = len a; len b, len result as the kernel needs), in release and debug builds: the outcome meets the
+   specification of the row's operation — and by C11_names the exported identifier spells exactly that element type,
+   back end and operation. *)
+Lemma debug_pass_gen {T} k dims (a b res : list T) :
+  dims = List.length a -> (kernel_uses_b k = true -> List.length b = List.length a) ->
+  (kernel_writes k = true -> List.length res = List.length a) ->
+  debug_asserts_pass k dims (List.length a) (List.length b) (List.length res) = true.
+Proof.
+  intros -> Hb Hr. unfold debug_asserts_pass. rewrite Nat.eqb_refl. cbn [andb].
+  destruct (kernel_uses_b k) eqn:Eb.
+  - rewrite (Hb eq_refl), Nat.eqb_refl. cbn [andb].
+    destruct (existsb (kernel_eqb k) _) eqn:Ew; [|reflexivity].
+    assert (kernel_writes k = true) by (destruct k; cbn in Ew |- *; congruence).
+    rewrite (Hr H), Nat.eqb_refl. reflexivity.
+  - cbn [andb]. destruct (existsb (kernel_eqb k) _) eqn:Ew; [|reflexivity].
+    assert (kernel_writes k = true) by (destruct k; cbn in Ew |- *; congruence).
+    rewrite (Hr H), Nat.eqb_refl. reflexivity.
+Qed.
+
+Theorem export_row_int_meets_spec :
+  forall e f debug DIMS v a b res,
+    is_float (e_ty e) = false -> e_reg e <> Neon -> In (e_op e) int_spec_kernels ->
+    dims_of f DIMS (List.length a) = List.length a ->
+    (kernel_uses_b (e_op e) = true -> List.length b = List.length a) ->
+    (kernel_writes (e_op e) = true -> List.length res = List.length a) ->
+    Forall (in_range (width (e_ty e))) a -> in_range (width (e_ty e)) v ->
+    (kernel_uses_b (e_op e) = true -> Forall (in_range (width (e_ty e))) b) ->
+    xmeets (run_export_int e f debug DIMS v a b res)
+           (spec_int (is_signed (e_ty e)) (width (e_ty e)) (e_op e) v a b).
+Proof.
+  intros e f debug DIMS v a b res Hty Hreg Hk Hd Hb Hr Fa Hv Fb.
+  unfold run_export_int.
+  assert (HR : exists R, int_ops (e_reg e) (e_ty e) = Some R).
+  { unfold int_ops. rewrite Hty. destruct (e_reg e); try (eexists; reflexivity). contradiction. }
+  destruct HR as [R HR]. rewrite HR. unfold run_export_gen. rewrite Hd.
+  rewrite (debug_pass_gen (e_op e) (List.length a) a b res eq_refl Hb Hr). rewrite andb_false_r.
+  apply (meets_xmeets (init_mem a b res)). unfold int_signed.
+  apply (int_export_meets_spec _ _ R (e_op e) a b res v (List.length a) HR Hk eq_refl Fa Hv).
+  - intros Hu. split; [apply Hb; exact Hu | apply Fb; exact Hu].
+  - exact Hr.
+Qed.
